@@ -7,8 +7,13 @@ package main
 // structure validators mixed with validators whose verdict is a fact of the case); (b) histories
 // of new-epoch notifications, timer ticks and alphabet membership changes through
 // processNewEpoch / processNewEpochTick with a client that records the NewEpoch invocations.
+// The fake chain can fail single requests (JSON-RPC error answer, undecodable answer, dropped
+// connection): the test invocation of the admission request's main transaction, and each of the
+// RPC calls the new-epoch handler makes (epoch duration, transaction height, network map
+// snapshot: invocation and iterator traversal, container listing) -- per step of a history.
 
 import (
+	"bytes"
 	"encoding/json"
 	"math/big"
 	"os"
@@ -33,6 +38,7 @@ import (
 	"github.com/nspcc-dev/neofs-node/pkg/innerring/processors/netmap/nodevalidation"
 	statevalidation "github.com/nspcc-dev/neofs-node/pkg/innerring/processors/netmap/nodevalidation/state"
 	"github.com/nspcc-dev/neofs-node/pkg/innerring/processors/netmap/nodevalidation/structure"
+	"github.com/nspcc-dev/neofs-node/pkg/morph/client"
 	cntClient "github.com/nspcc-dev/neofs-node/pkg/morph/client/container"
 	nmClient "github.com/nspcc-dev/neofs-node/pkg/morph/client/netmap"
 	"github.com/nspcc-dev/neofs-node/pkg/morph/event"
@@ -61,7 +67,7 @@ type c38Admit struct {
 	Faults   []string `json:"faults"`
 	Config   int    `json:"config"`
 	Alphabet bool   `json:"alphabet"`
-	Script   int    `json:"script"`     // chain's verdict on the main tx script: 0 HALT, 1 FAULT, 2 RPC error
+	Script   int    `json:"script"`     // test invocation of the main tx script: 0 HALT, 1 FAULT, it failed: 2 RPC error answer, 3 undecodable answer, 4 connection dropped
 	State    int    `json:"state"`      // node state: 1 online, 2 offline, 3 maintenance, other = unknown
 	AddrOK   bool   `json:"addr_ok"`    // announced addresses are acceptable multiaddresses (structure validator)
 	Verdicts []bool `json:"verdicts"`   // verdicts of the fact-driven validators 0..2
@@ -73,13 +79,32 @@ type c38Hist struct {
 	Kind   string  `json:"kind"`
 	Init   uint64  `json:"init"`
 	Alpha0 bool    `json:"alpha0"`
-	Events [][2]uint64 `json:"events"` // [0,n] notification of epoch n; [1,0] tick; [2,b] alphabet membership := b
+	// [0,n,env] notification of epoch n, env = what the chain does while it is handled: 2 bits per RPC
+	// call of the handler (c38Calls order; 0 answers, 1 error answer, 2 undecodable answer, 3 connection
+	// dropped; the sixth is the local timer reset: non-zero = it fails) and, from bit 12, the network map snapshot
+	// served (0 empty, 1 {A}, 2 {A,B}, 3 {B});
+	// [1,0,k] tick, k = how the NewEpoch test invocation is answered (0 refused (FAULT), 1-3 as above);
+	// [2,b,0] alphabet membership := b
+	Events [][3]uint64 `json:"events"`
 	Calls  [][]uint64  `json:"calls"`  // per tick: the epochs NewEpoch was invoked with
 }
+
+// RPC calls of processNewEpoch that can be failed, in the order of the env bits
+// ("timer" is not a request: the local epoch timer refuses to be reset)
+var c38Calls = []string{"config", "txheight", "listNodes", "traverse", "containers", "timer"}
 
 type c38Env struct {
 	g        *rng
 	ch       *chain
+	mc       *client.Client
+	irKey    *keys.PrivateKey
+	cntHash  util.Uint160
+	faults   map[string]int // request label -> way to fail the next request of that kind
+	hits     map[string]int // statistics: injected faults by label
+	dropped  bool           // the connection was dropped: the clients have to be rebuilt
+	snapshot int            // network map served by listNodes
+	nodes    []json.RawMessage // stack items of nodes A, B
+	iter     []json.RawMessage // items the open iterator still has
 	procs    []*nmproc.Processor
 	nmHash   util.Uint160
 	alphabet bool
@@ -93,7 +118,14 @@ type c38Env struct {
 
 type c38State struct{ e *c38Env }
 
-func (s c38State) ResetEpochTimer(uint32) error { return nil }
+func (s c38State) ResetEpochTimer(uint32) error {
+	if s.e.faults["timer"] != 0 {
+		delete(s.e.faults, "timer")
+		s.e.hits["timer"]++
+		return errRecorded
+	}
+	return nil
+}
 func (s c38State) SetEpochCounter(v uint64)     { s.e.counter = v }
 func (s c38State) EpochCounter() uint64         { return s.e.counter }
 func (s c38State) SetEpochDuration(uint64)      {}
@@ -112,17 +144,118 @@ func (v factValidator) Verify(netmap.NodeInfo) error {
 	return errRecorded
 }
 
+// label names the request kinds the scenarios distinguish
+func (e *c38Env) label(in *params.In) string {
+	switch in.Method {
+	case "invokefunction":
+		if len(in.RawParams) < 2 {
+			return ""
+		}
+		h, err := in.RawParams[0].GetUint160FromHex()
+		m, _ := in.RawParams[1].GetString()
+		if err != nil || h != e.nmHash {
+			return ""
+		}
+		return m // config, listNodes, newEpoch
+	case "invokescript":
+		if len(in.RawParams) < 1 {
+			return ""
+		}
+		sc, err := in.RawParams[0].GetBytesBase64()
+		if err != nil {
+			return ""
+		}
+		if bytes.Contains(sc, e.cntHash.BytesBE()) {
+			return "containers" // call + iterator prefetch: not a plain contract call
+		}
+		if h, m, _, _, err := scparser.GetAppCallFromContext(scparser.NewContext(sc, 0)); err == nil && h == e.nmHash {
+			return m // addNode, newEpoch
+		}
+		return "script"
+	case "gettransactionheight":
+		return "txheight"
+	case "traverseiterator":
+		return "traverse"
+	}
+	return ""
+}
+
 func newC38Env(seed uint64) *c38Env {
-	e := &c38Env{g: &rng{s: seed}, ch: newChain(), nmHash: util.Uint160{0xa1}, verdicts: []bool{true, true, true}}
-	irKey, _ := keys.NewPrivateKey()
-	e.alphaKeys = keys.PublicKeys{irKey.PublicKey()}
+	e := &c38Env{g: &rng{s: seed}, nmHash: util.Uint160{0xa1}, cntHash: util.Uint160{0xc0}, verdicts: []bool{true, true, true}, hits: map[string]int{}}
+	e.irKey, _ = keys.NewPrivateKey()
+	e.alphaKeys = keys.PublicKeys{e.irKey.PublicKey()}
 	for i := 0; i < 3; i++ {
 		k, _ := keys.NewPrivateKey()
 		e.alphaKeys = append(e.alphaKeys, k.PublicKey())
 	}
 	sort.Sort(e.alphaKeys)
+	for i := 0; i < 2; i++ {
+		k, _ := keys.NewPrivateKey()
+		n := &netmaprpc.NetmapNode2{Addresses: []string{"/ip4/10.0.1." + strconv.Itoa(i+1) + "/tcp/8080"}, Attributes: map[string]string{"Capacity": "10", "Price": "1"},
+			Key: k.PublicKey(), State: netmaprpc.NodeStateOnline}
+		it, err := n.ToStackItem()
+		if err != nil {
+			panic(err)
+		}
+		b, err := stackitem.ToJSONWithTypes(it)
+		if err != nil {
+			panic(err)
+		}
+		e.nodes = append(e.nodes, b)
+	}
+	e.connect()
+	return e
+}
+
+// connect (re)creates the fake node, the morph client on it and the processors. The epoch
+// counter and the alphabet membership live in the environment and survive a reconnection.
+func (e *c38Env) connect() {
+	if e.mc != nil {
+		e.mc.Close()
+		e.ch.srv.CloseClientConnections()
+		e.ch.srv.Close()
+	}
+	e.ch = newChain()
+	e.procs = nil
+	e.dropped = false
+	irKey := e.irKey
+	e.ch.onFault = func(in *params.In) int {
+		l := e.label(in)
+		k := e.faults[l]
+		if k != faultNone {
+			delete(e.faults, l)
+			e.hits[l]++
+			if k == faultDrop {
+				e.dropped = true
+			}
+		}
+		return k
+	}
+	e.ch.onOther = func(in *params.In) (any, *rpcErr, bool) {
+		if in.Method == "gettransactionheight" {
+			return 90, nil, true
+		}
+		return nil, nil, false
+	}
+	e.ch.onTraverse = func() []json.RawMessage {
+		it := e.iter
+		e.iter = nil
+		if it == nil {
+			it = []json.RawMessage{}
+		}
+		return it
+	}
 	e.ch.onFunc = func(h util.Uint160, m string, args []params.FuncParam) *result.Invoke {
 		if h == e.nmHash && m == "listNodes" {
+			e.iter = nil
+			switch e.snapshot {
+			case 1:
+				e.iter = []json.RawMessage{e.nodes[0]}
+			case 2:
+				e.iter = []json.RawMessage{e.nodes[0], e.nodes[1]}
+			case 3:
+				e.iter = []json.RawMessage{e.nodes[1]}
+			}
 			return emptyIter()
 		}
 		if h == e.nmHash && m == "newEpoch" && len(args) == 1 {
@@ -146,23 +279,25 @@ func newC38Env(seed uint64) *c38Env {
 			}
 			return fault("recorded by the verification harness")
 		}
-		switch e.scriptV {
-		case 0:
-			return halt()
-		case 1:
+		if bytes.Contains(sc, e.cntHash.BytesBE()) {
+			// listing of the containers (placement update after a changed network map): none
+			return halt(stackitem.NewArray([]stackitem.Item{}))
+		}
+		if e.scriptV == 1 {
 			return fault("refused")
 		}
-		return nil
+		return halt()
 	}
 	mc := e.ch.morph(irKey, util.Uint160{0xbb}, func() (keys.PublicKeys, error) {
 		e.approved++
 		return e.alphaKeys, nil
 	})
+	e.mc = mc
 	nmc, err := nmClient.NewFromMorph(mc, e.nmHash, nmClient.AsAlphabet())
 	if err != nil {
 		panic(err)
 	}
-	cc, err := cntClient.NewFromMorph(mc, util.Uint160{0xc0}, cntClient.AsAlphabet())
+	cc, err := cntClient.NewFromMorph(mc, e.cntHash, cntClient.AsAlphabet())
 	if err != nil {
 		panic(err)
 	}
@@ -190,7 +325,6 @@ func newC38Env(seed uint64) *c38Env {
 		}
 		e.procs = append(e.procs, p)
 	}
-	return e
 }
 
 type fakeNotaryEvent struct {
@@ -208,7 +342,7 @@ func (f fakeNotaryEvent) Raw() *payload.P2PNotaryRequest   { return f.raw }
 func (e *c38Env) admitCase() c38Admit {
 	g := e.g
 	c := c38Admit{Kind: "c38admit", Config: g.n(len(c38Configs)), Alphabet: true, State: []int{1, 3}[g.n(2)], AddrOK: true, Verdicts: []bool{true, true, true}, Faults: []string{}}
-	cand := []string{"non_alphabet", "script_fault", "script_error", "state_offline", "state_unknown", "addr_bad", "addr_none", "v0", "v1", "v2"}
+	cand := []string{"non_alphabet", "script_fault", "script_error", "script_garbage", "script_drop", "state_offline", "state_unknown", "addr_bad", "addr_none", "v0", "v1", "v2"}
 	nf := 1
 	switch x := g.n(20); {
 	case x < 6:
@@ -230,6 +364,12 @@ func (e *c38Env) admitCase() c38Admit {
 	}
 	if fs["script_error"] {
 		c.Script = 2
+	}
+	if fs["script_garbage"] {
+		c.Script = 3
+	}
+	if fs["script_drop"] {
+		c.Script = 4
 	}
 	if fs["state_offline"] {
 		c.State = 2
@@ -288,27 +428,43 @@ func (e *c38Env) admitCase() c38Admit {
 	e.alphabet, e.scriptV = c.Alphabet, c.Script
 	copy(e.verdicts, c.Verdicts)
 	e.approved = 0
+	e.faults = map[string]int{}
+	if c.Script >= 2 {
+		// exactly the test invocation of the main transaction fails; every other request is served
+		e.faults[netmapEvent.AddNodeNotaryEvent] = c.Script - 1
+	}
 	e.procs[c.Config].VerifProcessAddNode(ev.(netmapEvent.AddNode))
 	c.Approved = e.approved > 0
+	e.faults = nil
+	if e.dropped {
+		e.connect()
+	}
 	return c
 }
 
 func (e *c38Env) histCase() c38Hist {
 	g := e.g
-	h := c38Hist{Kind: "c38hist", Init: uint64(g.n(50)), Alpha0: g.p(3, 4), Events: [][2]uint64{}, Calls: [][]uint64{}}
+	h := c38Hist{Kind: "c38hist", Init: uint64(g.n(50)), Alpha0: g.p(3, 4), Events: [][3]uint64{}, Calls: [][]uint64{}}
 	if g.p(1, 10) {
 		h.Init = []uint64{0, 1<<63 - 2, 1<<64 - 1, 1<<64 - 2}[g.n(4)]
 	}
 	e.counter, e.alphabet = h.Init, h.Alpha0
-	p := e.procs[g.n(len(e.procs))]
+	pi := g.n(len(e.procs))
 	cur := h.Init
 	n := 1 + g.n(12)
 	for i := 0; i < n; i++ {
 		switch x := g.n(10); {
 		case x < 4: // tick
-			h.Events = append(h.Events, [2]uint64{1, 0})
+			// the chain's answer to the NewEpoch test invocation: refusal, or a failure of the request
+			k := 0
+			if g.p(1, 4) {
+				k = 1 + g.n(3)
+			}
+			h.Events = append(h.Events, [3]uint64{1, 0, uint64(k)})
 			e.epochs = nil
-			p.VerifProcessNewEpochTick()
+			e.faults = map[string]int{"newEpoch": k}
+			e.procs[pi].VerifProcessNewEpochTick()
+			e.faults = nil
 			calls := append([]uint64{}, e.epochs...)
 			h.Calls = append(h.Calls, calls)
 		case x < 8: // notification
@@ -327,13 +483,27 @@ func (e *c38Env) histCase() c38Hist {
 				ep = 1<<63 - 1 // the notification carries an int64
 			}
 			cur = ep
-			h.Events = append(h.Events, [2]uint64{0, ep})
+			// what the chain does while the notification is handled
+			e.snapshot = g.n(4)
+			env := uint64(e.snapshot) << 12
+			e.faults = map[string]int{}
+			if g.p(3, 5) {
+				for nf := 1 + g.n(2); nf > 0; nf-- {
+					ci := g.n(len(c38Calls))
+					e.faults[c38Calls[ci]] = 1 + g.n(3)
+				}
+				for ci, l := range c38Calls {
+					env |= uint64(e.faults[l]) << (2 * ci)
+				}
+			}
+			h.Events = append(h.Events, [3]uint64{0, ep, env})
 			ne, err := netmapEvent.ParseNewEpoch(&state.ContainedNotificationEvent{Container: util.Uint256{byte(i)},
 				NotificationEvent: state.NotificationEvent{ScriptHash: e.nmHash, Name: "NewEpoch", Item: stackitem.NewArray([]stackitem.Item{stackitem.NewBigInteger(new(big.Int).SetUint64(ep))})}})
 			if err != nil {
 				panic(err)
 			}
-			p.VerifProcessNewEpoch(ne.(netmapEvent.NewEpoch))
+			e.procs[pi].VerifProcessNewEpoch(ne.(netmapEvent.NewEpoch))
+			e.faults = nil
 		default:
 			b := g.p(1, 2)
 			e.alphabet = b
@@ -341,7 +511,10 @@ func (e *c38Env) histCase() c38Hist {
 			if b {
 				v = 1
 			}
-			h.Events = append(h.Events, [2]uint64{2, v})
+			h.Events = append(h.Events, [3]uint64{2, v, 0})
+		}
+		if e.dropped {
+			e.connect() // same processor configuration, fresh clients; the counter and the membership persist
 		}
 	}
 	return h
@@ -363,4 +536,5 @@ func c38Main() {
 	for i := 0; i < nh; i++ {
 		_ = enc.Encode(e.histCase())
 	}
+	_ = enc.Encode(map[string]any{"kind": "c38stats", "injected": e.hits})
 }
